@@ -46,17 +46,17 @@ theorem clientStep_ok_state {st : ClientState} {now : Nat} {p : Packet} (h : cli
 
 theorem parseClientHeader_ne_ok {now : Nat} {p : Packet} {e : Res}
     (he : parseClientHeader now p = some e) : e ≠ .ok := by
-  unfold parseClientHeader at he
+  simp only [parseClientHeader, SSV.Gen.C04.udpClientHeaderOrder, runChecks, checkFails] at he
   intro h; subst h
   cases h1 : p.hdr <;> cases h2 : (p.typ != headerTypeClientPacket) <;> cases h3 : tsValid p.ts now <;>
-    cases h4 : p.rest <;> simp_all
+    cases h4 : p.padOk <;> cases h6 : p.addrOk <;> simp_all
 
 theorem parseServerHeader_ne_ok {now csid : Nat} {p : Packet} {e : Res}
     (he : parseServerHeader now csid p = some e) : e ≠ .ok := by
-  unfold parseServerHeader at he
+  simp only [parseServerHeader, SSV.Gen.C04.udpServerHeaderOrder, runChecks, checkFails] at he
   intro h; subst h
   cases h1 : p.hdr <;> cases h2 : (p.typ != headerTypeServerPacket) <;> cases h3 : tsValid p.ts now <;>
-    cases h5 : (p.csid != csid) <;> cases h4 : p.rest <;> simp_all
+    cases h5 : (p.csid != csid) <;> cases h4 : p.padOk <;> cases h6 : p.addrOk <;> simp_all
 
 theorem serverVerdict_ok {st : ServerState} {now : Nat} {p : Packet} :
     serverVerdict st now p = .ok ↔
@@ -123,23 +123,23 @@ def clientJunk (csid : Nat) (now : Nat) (p : Packet) : Bool :=
   !p.authentic || p.typ != headerTypeServerPacket || !decide (tsNear p.ts now) || p.csid != csid
 
 theorem parseClientHeader_none {now : Nat} {p : Packet} (h : parseClientHeader now p = none) :
-    p.hdr = true ∧ p.typ = headerTypeClientPacket ∧ tsValid p.ts now = true ∧ p.rest = true := by
-  unfold parseClientHeader at h
+    p.hdr = true ∧ p.typ = headerTypeClientPacket ∧ tsValid p.ts now = true ∧ p.padOk = true ∧ p.addrOk = true := by
+  simp only [parseClientHeader, SSV.Gen.C04.udpClientHeaderOrder, runChecks, checkFails] at h
   cases h1 : p.hdr <;> cases h2 : (p.typ != headerTypeClientPacket) <;> cases h3 : tsValid p.ts now <;>
-    cases h4 : p.rest <;> simp_all
+    cases h4 : p.padOk <;> cases h6 : p.addrOk <;> simp_all
 
 theorem parseServerHeader_none {now csid : Nat} {p : Packet} (h : parseServerHeader now csid p = none) :
-    p.hdr = true ∧ p.typ = headerTypeServerPacket ∧ tsValid p.ts now = true ∧ p.csid = csid ∧ p.rest = true := by
-  unfold parseServerHeader at h
+    p.hdr = true ∧ p.typ = headerTypeServerPacket ∧ tsValid p.ts now = true ∧ p.csid = csid ∧ p.padOk = true ∧ p.addrOk = true := by
+  simp only [parseServerHeader, SSV.Gen.C04.udpServerHeaderOrder, runChecks, checkFails] at h
   cases h1 : p.hdr <;> cases h2 : (p.typ != headerTypeServerPacket) <;> cases h3 : tsValid p.ts now <;>
-    cases h5 : (p.csid != csid) <;> cases h4 : p.rest <;> simp_all
+    cases h5 : (p.csid != csid) <;> cases h4 : p.padOk <;> cases h6 : p.addrOk <;> simp_all
 
 theorem parseClientHeader_none_iff {now : Nat} {p : Packet} :
     parseClientHeader now p = none ↔
-      (p.hdr = true ∧ p.typ = headerTypeClientPacket ∧ tsValid p.ts now = true ∧ p.rest = true) := by
-  unfold parseClientHeader
+      (p.hdr = true ∧ p.typ = headerTypeClientPacket ∧ tsValid p.ts now = true ∧ p.padOk = true ∧ p.addrOk = true) := by
+  simp only [parseClientHeader, SSV.Gen.C04.udpClientHeaderOrder, runChecks, checkFails]
   cases h1 : p.hdr <;> cases h2 : (p.typ != headerTypeClientPacket) <;> cases h3 : tsValid p.ts now <;>
-    cases h4 : p.rest <;> simp_all
+    cases h4 : p.padOk <;> cases h6 : p.addrOk <;> simp_all
 
 theorem serverJunk_rejected {st : ServerState} {now : Nat} {p : Packet} (hc : ClockOk now) (h : serverJunk now p = true) :
     (serverStep st now p).2 ≠ .ok := by
